@@ -71,6 +71,12 @@ func (p *{{$TypeName}}) CountSetFields{{$TypeName}}() int {
 	}
 	{{- end}}
 	{{- end}}
+	{{- if Features.KeepUnknownFields}}
+	if len(p._unknownFields) > 0 {
+		// the member that is set is one this version of the union does not know
+		count++
+	}
+	{{- end}}
 	return count
 }
 {{- end}}
